@@ -1556,3 +1556,12 @@ DESIGNED_NOT_REGISTERED = [
      'proxies; with it stubbed the setting is O4\'s. Termination within the bound is not forced by the sub-solver contract (tolerance ramp 100^(1-it/3) on the first three sub-solves), '
      'so the registered claim is: every return within 3 unrolled iterations is the constrained minimiser / KKT multiplier up to 80 / 210 tol; the NameError exit at the bound carries no claim'),
 ]
+
+
+@obligation(P, 'O8.settings_constructor', cap=300)
+def o8_settings(h):
+    """AlSolver.get_settings puts every keyword into the Settings field of the same name (the solver reads fields by name)"""
+    from .c01 import make_generic_settings_harness
+    h.encoded('optimism.AlSolver:get_settings', 'optimism.AlSolver:Settings')
+    h.bounds('every keyword symbolic (reals, integers, Booleans)')
+    px.run_px(h, 'settings', make_generic_settings_harness('optimism/AlSolver.py'), cap=20)
